@@ -321,7 +321,7 @@ theorem arity_rejected_lenient (c p : State) (fa ci : Nat) (free : Option (List 
     exact ⟨_, callCompiled_variadic_arity_error fa args.length p _ free hcell hv (by omega)⟩
 
 /-- **prologue_eq_callbind.**  The whole entries: the child's `prologue` (`Run` up to the loop) and the
-    parent's `xOpCallCompiled` leave states related by the offset relation `ShB bp k 0` (Proofs/Shift.lean,
+    parent's `xOpCallCompiled` leave states related by the offset relation `ShB T0 bp k 0` (Proofs/Shift.lean,
     depth 0: both are in the invoked function's own frame): same heap, code memory, constants, globals, module
     cache; `ip = -1` on both; child frame 0 / base 0 / `sp = NumLocals` against parent frame k / base bp /
     `sp = bp + NumLocals`; no handlers; `child.stack[i] = parent.stack[bp+i]` for `i < NumLocals`. -/
@@ -340,7 +340,7 @@ theorem prologue_eq_callbind (c p : State) (fa ci : Nat) (free : Option (List Ad
     (hnl : (p.codes[ci]!).numParams ≤ (p.codes[ci]!).numLocals) :
     ∃ c' p', exec (prologue p.globals args) c = (.ok (), c') ∧
       exec (callCompiled fa args.length 0) p = (.ok (.ok ()), p') ∧
-      ShB (p.sp - args.length).toNat p.frameIndex.toNat 0 c' p' ∧ c'.sp = (p.codes[ci]!).numLocals :=
+      ShB p' (p.sp - args.length).toNat p.frameIndex.toNat 0 c' p' ∧ c'.sp = (p.codes[ci]!).numLocals :=
   entries_shifted c p fa ci free args hfn hheap hcodes hconsts hmods hnm hmain hfull hg herr hshc hshp hargs hacc hself
     hfi hbp hsp hroom hnl
 
@@ -355,7 +355,7 @@ def exP : State :=
     frameIndex := 1, globals := .undefined }
 
 example : ∃ c' p', exec (prologue exP.globals []) exP = (.ok (), c') ∧
-    exec (callCompiled 0 (([] : List V).length) 0) exP = (.ok (.ok ()), p') ∧ ShB 0 1 0 c' p' ∧ c'.sp = (0 : Nat) := by
+    exec (callCompiled 0 (([] : List V).length) 0) exP = (.ok (.ok ()), p') ∧ ShB p' 0 1 0 c' p' ∧ c'.sp = (0 : Nat) := by
   have hfr : (exP.frames[exP.curFrame]!).fn ≠ some 0 := by
     show (Array.replicate frameSize ({} : Frame))[0]!.fn ≠ some 0
     rw [emptyFrames_zero]; simp
@@ -375,7 +375,7 @@ theorem acquire_meets_prologue (root caller child : State) (fa : Addr)
 /-! ### `frame_shift`: the simulation between the child and the callee's frames in the parent -/
 
 /-- **frame_shift.**  One instruction — ANY opcode, all 44 of opcodes.go and unknown ones — of the child and of the
-    parent from `ShB bp k d`-related states: the invoked function runs in the child's frame 0 / base 0 and in the
+    parent from `ShB T0 bp k d`-related states: the invoked function runs in the child's frame 0 / base 0 and in the
     parent's frame `k` / base `bp`; both VMs are `d ≥ 0` frames above it (nested calls), frame `j` of the child
     corresponding to frame `k + j` of the parent: same function, free variables, saved `ip`, base pointer shifted
     by `bp`, handler stacks equal up to the shift of the recorded `sp`; equal heap, code, constants, globals, module
@@ -385,7 +385,7 @@ theorem acquire_meets_prologue (root caller child : State) (fa : Addr)
     free frame: otherwise it answers StackOverflowError where the child still has `k` frames left).
     If both `step`s end normally (Go panics / `unsupported` are not compared: the child has `bp` more stack slots)
     then one of:
-    * both continue (`.next`) in `ShB bp k d'`-related states — `d' = d`, `d + 1` (CALL / CALLNAME of a compiled
+    * both continue (`.next`) in `ShB T0 bp k d'`-related states — `d' = d`, `d + 1` (CALL / CALLNAME of a compiled
       function, also the running function itself; a self tail call reuses the frame: `d' = d`), `d - 1` (RETURN of a
       nested call), or the depth of the frame whose handler caught a thrown error;
     * the child's loop returns with `vm.err = e` (an uGO error no handler of the function's frame or of a frame above
@@ -393,14 +393,14 @@ theorem acquire_meets_prologue (root caller child : State) (fa : Addr)
     * both loops return with the same Go error (unknown opcode, malformed THROW operand);
     * the invoked function RETURNed (`d = 0`): the child's loop returns without error, the parent is back in the
       caller's frame `k - 1` with `sp = bp`, and `child.stack[sp-1] = parent.stack[sp-1]` (`RetQ`). -/
-theorem frame_shift (F : FloatOps) (bp k d : Nat) (hk : 1 ≤ k) (hbp : 1 ≤ bp) (s t : State) (h : ShB bp k d s t)
+theorem frame_shift (F : FloatOps) (T0 : State) (bp k d : Nat) (hk : 1 ≤ k) (hbp : 1 ≤ bp) (s t : State) (h : ShB T0 bp k d s t)
     (hok : StepOk s) (hroom : CallRoom s t)
     (r r' : Ctl) (s' t' : State) (h1 : exec (step F) s = (.ok r, s')) (h2 : exec (step F) t = (.ok r', t')) :
-    (r = .next ∧ r' = .next ∧ ∃ d', ShB bp k d' s' t') ∨
-    (r = .ret ∧ ∃ e, s'.err = some (.rt e) ∧ EscQ k e r' s' t') ∨
+    (r = .next ∧ r' = .next ∧ ∃ d', ShB T0 bp k d' s' t') ∨
+    (r = .ret ∧ ∃ e, s'.err = some (.rt e) ∧ EscQ T0 bp k e r' s' t') ∨
     (r = .ret ∧ r' = .ret ∧ (∃ m, s'.err = some (.goerr m) ∧ t'.err = some (.goerr m)) ∧
       s'.heap = t'.heap ∧ s'.globals = t'.globals ∧ s'.modules = t'.modules) ∨
-    RetQ bp k r r' s' t' := by
+    RetQ T0 bp k r r' s' t' := by
   rcases UgoVerif.Proofs.Shift.frame_shift F hk hbp s t ⟨h, hok, hroom⟩ r s' r' t' h1 h2 with (h | h | h) | h
   · exact Or.inl h
   · exact Or.inr (Or.inl h)
@@ -412,26 +412,27 @@ theorem frame_shift (F : FloatOps) (bp k d : Nat) (hk : 1 ≤ k) (hbp : 1 ≤ bp
     (the model's `throwFuel` counts all frames, so the two sides get different ones).  If both end normally:
     * a handler in the function's frame or in a frame above it takes the error ON BOTH SIDES: same handler, `ip`
       set to its catch / finally position, `sp` reset to the `sp` it recorded (shifted by `bp` in the parent), the
-      frames above the handling frame dropped: `ShB bp k d'` again, `d'` the depth of the handling frame; or
+      frames above the handling frame dropped: `ShB T0 bp k d'` again, `d'` the depth of the handling frame; or
     * there is none: the child's `throw` returns `e` (→ `vm.err`, `Run` returns it to the Go caller) and the parent's
       `throw` ended as `throwBelow n'' k e` — the search for a handler in frames `k-1, k-2, …, 0` — ends from a state
       `u` with the child's heap, globals and module cache.  Below this boundary the two sides legitimately differ
       (the Go caller of `Invoke` gets the error; the in-script caller's frames are searched). -/
-theorem throw_shift_partial (bp k d H N : Nat) (a : Int) (e : Addr) (n n' : Nat) (s t : State)
-    (h : Sh bp k d H N a s t) (ha : a ≤ N) (hH : H ≤ N) (r r' : Option Addr) (s' t' : State)
+theorem throw_shift_partial (T0 : State) (bp k d H N : Nat) (a : Int) (e : Addr) (n n' : Nat) (s t : State)
+    (h : Sh T0 bp k d H N a s t) (ha : a ≤ N) (hH : H ≤ N) (r r' : Option Addr) (s' t' : State)
     (h1 : exec (throwF n e) s = (.ok r, s')) (h2 : exec (throwF n' e) t = (.ok r', t')) :
-    (r = none ∧ r' = none ∧ ∃ d', ShB bp k d' s' t') ∨
+    (r = none ∧ r' = none ∧ ∃ d', ShB T0 bp k d' s' t') ∨
     (r = some e ∧ s'.err = none ∧ ∃ n'' u, u.heap = s'.heap ∧ u.globals = s'.globals ∧ u.modules = s'.modules ∧
-      u.err = none ∧ exec (throwBelow n'' k e) u = (.ok r', t')) :=
+      u.err = none ∧ (∀ j : Nat, j < k → u.frames[j]! = T0.frames[j]!) ∧ (∀ i : Nat, i + 1 < bp → u.stack[i]! = T0.stack[i]!) ∧
+      exec (throwBelow n'' k e) u = (.ok r', t')) :=
   sh_throwF e n n' d H N a ha hH s t h r s' r' t' h1 h2
 
 /-- **steps_shift.**  `frame_shift` iterated while the child's loop goes on: after `m` instructions of the child that
     all continued, the parent (if it did not panic / leave the model) also continued `m` times and the states are
     related again (at some depth). -/
-theorem steps_shift (F : FloatOps) (bp k : Nat) (hk : 1 ≤ k) (hbp : 1 ≤ bp) (m j : Nat) (s t : State)
-    (h : ∃ d, ShB bp k d s t) (hok : OkRun F (m + j) s t)
+theorem steps_shift (F : FloatOps) (T0 : State) (bp k : Nat) (hk : 1 ≤ k) (hbp : 1 ≤ bp) (m j : Nat) (s t : State)
+    (h : ∃ d, ShB T0 bp k d s t) (hok : OkRun F (m + j) s t)
     (s0 : State) (h1 : runSteps F m s = some (.next, s0)) (r0 : Ctl) (t0 : State) (h2 : runSteps F m t = some (r0, t0)) :
-    r0 = .next ∧ (∃ d, ShB bp k d s0 t0) ∧ OkRun F j s0 t0 :=
+    r0 = .next ∧ (∃ d, ShB T0 bp k d s0 t0) ∧ OkRun F j s0 t0 :=
   UgoVerif.Proofs.Shift.steps_shift F hk hbp m j s t h hok s0 h1 r0 t0 h2
 
 /-- **invoke_eq_call_partial.**  The whole run of the invoked function.  `c` is the child as `_acquire` left it, `p` the
@@ -467,7 +468,7 @@ theorem invoke_eq_call_partial (F : FloatOps) (c p : State) (fa ci : Nat) (free 
         ∃ m cm, m < n ∧ runSteps F m c0 = some (.next, cm) ∧ exec (step F) cm = (.ok .ret, c') ∧
           ∀ r0 pm, runSteps F m p0 = some (r0, pm) → r0 = .next ∧
             ∀ r' p', exec (step F) pm = (.ok r', p') →
-              EndQ (p.sp - args.length).toNat p.frameIndex.toNat r' c' p' := by
+              EndQ p0 (p.sp - args.length).toNat p.frameIndex.toNat r' c' p' := by
   obtain ⟨c0, p0, h1, h2, hsh, _⟩ := prologue_eq_callbind c p fa ci free args hfn hheap hcodes hconsts hmods hnm hmain hfull hg
     herr hshc hshp hargs hacc hself ⟨by omega, hfi.2⟩ (by omega) hsp hroom hnl
   refine ⟨c0, p0, h1, h2, ?_⟩
@@ -475,10 +476,11 @@ theorem invoke_eq_call_partial (F : FloatOps) (c p : State) (fa ci : Nat) (free 
   exact UgoVerif.Proofs.Shift.invoke_eq_call_partial F (by omega) (by omega) n c0 p0 ⟨0, hsh⟩ hok c' hc'
 
 /-- what `EndQ` says when the function returned, spelled out (`return_shift`) -/
-theorem return_shift (bp k : Nat) (r' : Ctl) (s' t' : State) (h : RetQ bp k .ret r' s' t') :
+theorem return_shift (T0 : State) (bp k : Nat) (r' : Ctl) (s' t' : State) (h : RetQ T0 bp k .ret r' s' t') :
     r' = .next ∧ s'.heap = t'.heap ∧ s'.globals = t'.globals ∧ s'.modules = t'.modules ∧
     s'.err = none ∧ t'.err = none ∧ s'.frameIndex = 1 ∧ t'.frameIndex = k ∧ t'.sp = bp ∧ 1 ≤ s'.sp ∧
-    s'.stack[(s'.sp - 1).toNat]! = t'.stack[(t'.sp - 1).toNat]! ∧ t'.stack.size = stackSize := h.2
+    s'.stack[(s'.sp - 1).toNat]! = t'.stack[(t'.sp - 1).toNat]! ∧ t'.stack.size = stackSize ∧
+    (∀ j : Nat, j < k → t'.frames[j]! = T0.frames[j]!) ∧ (∀ i : Nat, i + 1 < bp → t'.stack[i]! = T0.stack[i]!) := h.2
 
 /-- **result_value_deref** (the epilogue).  `Run` returns `stack[sp-1]` unless it is an `*ObjectPtr`, which
     it dereferences (vm.go:166-170) — the in-script caller gets the slot value as it is.  So after
@@ -493,7 +495,7 @@ theorem result_value_deref (s : State) (hsp : 1 ≤ s.sp ∧ s.sp ≤ (stackSize
   ⟨resultValue_of_slot s hsp, fun a w hv hw => resultValue_of_box s hsp a w hv hw⟩
 
 /-- what `ShB` says about the observable state: same heap, globals and module cache -/
-theorem shB_observables (bp k d : Nat) (s t : State) (h : ShB bp k d s t) :
+theorem shB_observables (T0 : State) (bp k d : Nat) (s t : State) (h : ShB T0 bp k d s t) :
     s.heap = t.heap ∧ s.globals = t.globals ∧ s.modules = t.modules ∧ s.ip = t.ip ∧ t.sp = s.sp + bp := by
   obtain ⟨H, N, a, h, _, _⟩ := h
   exact ⟨h.heap, h.globals, h.modules, h.ip, by rw [h.spT, h.spS]⟩
@@ -514,7 +516,7 @@ theorem exFrames : ∀ j : Nat, j ≤ 0 → FrameSh 0 0 (({ newState #[] #[] #[]
   rw [Nat.add_zero, emptyFrames_zero]
   exact ⟨rfl, rfl, rfl, trivial, rfl, Int.le_refl _⟩
 
-theorem exSh : Sh 0 0 0 0 0 0 ({ newState #[] #[] #[] 0 0 with frameIndex := 1 } : State)
+theorem exSh : Sh ({ newState #[] #[] #[] 0 0 with frameIndex := 1 } : State) 0 0 0 0 0 0 ({ newState #[] #[] #[] 0 0 with frameIndex := 1 } : State)
     ({ newState #[] #[] #[] 0 0 with frameIndex := 1 } : State) :=
   { heap := rfl, codes := rfl, consts := rfl, globals := rfl, modules := rfl, numModules := rfl, ip := rfl,
     spS := rfl, spT := rfl, curS := rfl, curT := rfl, fiS := rfl, fiT := rfl, errS := rfl, errT := rfl,
@@ -526,10 +528,12 @@ theorem exSh : Sh 0 0 0 0 0 0 ({ newState #[] #[] #[] 0 0 with frameIndex := 1 }
     bp0 := (by show (Array.replicate frameSize ({} : Frame))[0]!.bp = 0; rw [emptyFrames_zero]),
     bpPos := fun j h1 hj => (by omega),
     stack := fun i hi => (by omega),
-    room := (by decide) }
+    room := (by decide),
+    lowF := fun _ _ => rfl,
+    lowS := fun _ _ => rfl }
 
 /-- non-vacuity of `ShB`: a VM at `frameIndex = 1` is related to itself with `bp = 0`, `k = 0`, depth 0 -/
-example : ShB 0 0 0 ({ newState #[] #[] #[] 0 0 with frameIndex := 1 } : State)
+example : ShB ({ newState #[] #[] #[] 0 0 with frameIndex := 1 } : State) 0 0 0 ({ newState #[] #[] #[] 0 0 with frameIndex := 1 } : State)
     ({ newState #[] #[] #[] 0 0 with frameIndex := 1 } : State) :=
   ⟨0, 0, 0, exSh, Int.le_refl _, Nat.le_refl _⟩
 
@@ -570,12 +574,12 @@ theorem acquire_fields (root caller child : State) (callee : Addr) :
 /-- **invoke_loop_partial.**  `invoke_eq_call_partial` for the child's real loop `loopF` (`loop()`: abort check before every
     instruction): if it ends within `n` instructions without the VM having been aborted, it ended at its instruction
     `m + 1` and the parent's instruction `m + 1` ends as `EndQ` says. -/
-theorem invoke_loop_partial (F : FloatOps) (bp k : Nat) (hk : 1 ≤ k) (hbp : 1 ≤ bp) (n : Nat) (s t : State)
-    (h : ∃ d, ShB bp k d s t) (hok : OkRun F n s t) (s' : State)
+theorem invoke_loop_partial (F : FloatOps) (T0 : State) (bp k : Nat) (hk : 1 ≤ k) (hbp : 1 ≤ bp) (n : Nat) (s t : State)
+    (h : ∃ d, ShB T0 bp k d s t) (hok : OkRun F n s t) (s' : State)
     (hs : exec (loopF F n) s = (.ok (some ()), s')) (hna : s'.err ≠ some .aborted) :
     ∃ m s0, m < n ∧ runSteps F m s = some (.next, s0) ∧ exec (step F) s0 = (.ok .ret, s') ∧
       ∀ r0 t0, runSteps F m t = some (r0, t0) → r0 = .next ∧
-        ∀ r' t', exec (step F) t0 = (.ok r', t') → EndQ bp k r' s' t' :=
+        ∀ r' t', exec (step F) t0 = (.ok r', t') → EndQ T0 bp k r' s' t' :=
   UgoVerif.Proofs.Shift.invoke_loop_partial F hk hbp n s t h hok s' hs hna
 
 /-- **host_loop_of_loop.**  The host-aware loop `loopI` (VM/Invoke.lean: the loop of a VM whose globals may hold Go
@@ -878,7 +882,7 @@ theorem C14_value_restricted (F : FloatOps) (cfg : HostCfg) (root s p : State) (
     rotate_left
     · rw [hret] at he; cases he
     · rw [hret] at he; cases he
-    obtain ⟨_, hr', hh, hgl, hmo, _, _, _, hfk, hspk, hsp1, hval, hsz⟩ := hq
+    obtain ⟨_, hr', hh, hgl, hmo, _, _, _, hfk, hspk, hsp1, hval, hsz, _, _⟩ := hq
     subst hr'
     -- the Invoker side
     obtain ⟨w1, hacq⟩ := poolAcquire_fresh w { root with modules := s.modules } s fa cfg.pooled hw
@@ -927,5 +931,167 @@ theorem C14_value_restricted (F : FloatOps) (cfg : HostCfg) (root s p : State) (
     · show (if s.modules.size ≥ s.numModules then c1.modules else s.modules) = p'.modules
       rw [if_pos hshared]
       exact hmo
+
+/-! ### one invocation that ends with an error nobody catches -/
+
+/-- the frame search of `throw` through frames without handlers: nothing found; heap, globals, module cache and
+    `vm.err` untouched -/
+theorem searchFrames_none : ∀ (j : Nat) (u : State), j ≤ frameSize → (∀ i, i < j → hasHandler (u.frames[i]!) = false) →
+    ∃ u', exec (searchFrames j) u = (.ok none, u') ∧ u'.heap = u.heap ∧ u'.globals = u.globals ∧ u'.modules = u.modules ∧
+      u'.err = u.err := by
+  intro j
+  induction j with
+  | zero =>
+    intro u _ _
+    rw [searchFrames]
+    exact ⟨u, rfl, rfl, rfl, rfl, rfl⟩
+  | succ j ih =>
+    intro u hj hnh
+    rw [exec_searchFrames_succ]
+    have c1 : ¬ j ≥ frameSize := by omega
+    have c2 : ¬ (hasHandler (u.frames[j]!) = true) := by rw [hnh j (by omega)]; simp
+    rw [if_neg c1, if_neg c2]
+    obtain ⟨u', h1, h2, h3, h4, h5⟩ := ih { u with frames := u.frames.modify j fun f => { f with free := none, fn := none } }
+      (by omega) (by
+        intro i hi
+        show hasHandler ((u.frames.modify j _)[i]!) = false
+        rw [getElem!_modify]
+        have c : ¬ (j = i ∧ i < u.frames.size) := fun c => by omega
+        rw [if_neg c]
+        exact hnh i (by omega))
+    exact ⟨u', h1, h2, h3, h4, h5⟩
+
+theorem finish_error_state (s : State) (e : VmErr) (herr : s.err = some e) :
+    runFrom.finish (exec clearCurrentFrame s).2 = (.error e, (exec clearCurrentFrame s).2) := by
+  have e' : (exec clearCurrentFrame s).2 =
+      { s with frames := s.frames.modify s.curFrame (fun f => { f with free := none, fn := none, handlers := none }) } := rfl
+  unfold runFrom.finish
+  have h1 : (exec clearCurrentFrame s).2.err = some e := by rw [e']; exact herr
+  rw [h1]
+
+set_option maxHeartbeats 1600000 in
+/-- **C14_error_restricted** (the statement of `C14_full` for one invocation that ends with an uGO error which neither the
+    function nor — `hnh` — any frame of the caller catches).  Same setting and hypotheses as `C14_value_restricted`,
+    with `vm.err = e` at the end of the child's loop instead of `nil`.  Then `Invoke` returns the error `e` and the
+    in-script call ends the parent's loop with `vm.err = e` — the SAME `*RuntimeError` object —, and heap, globals and
+    module cache of the two final states are equal.  (When a frame of the caller has a handler the in-script run goes
+    on inside that handler; `inScriptCall` then reports a value: not comparable, see `throw_shift_partial`.) -/
+theorem C14_error_restricted (F : FloatOps) (cfg : HostCfg) (root s p : State) (w : World) (fa ci : Nat)
+    (free : Option (List Addr)) (args : List V) (dpt fuel : Nat) (e : Addr)
+    (hw : ∀ c ∈ w.idle, ∃ u, c = releaseVM u)
+    (hrc : root.consts = s.consts) (hrn : root.numModules = s.numModules) (hshared : s.numModules ≤ s.modules.size)
+    (hpush : exec (pushArgs fa args) s = (.ok (), p))
+    (hfn : p.heap[fa]? = some (.fn ci free)) (hg : p.globals ≠ .nil) (herr : p.err = none) (hshp : Shape p)
+    (hargs : argsOnStack p args.length = args)
+    (hacc : accepted (p.codes[ci]!).numParams (p.codes[ci]!).variadic args.length)
+    (hself : (p.frames[p.curFrame]!).fn ≠ some fa)
+    (hfi : 1 ≤ p.frameIndex ∧ p.frameIndex + 1 ≤ (frameSize : Int) - 1)
+    (hbp : 1 ≤ p.sp - args.length) (hsp : p.sp ≤ (stackSize : Int))
+    (hroom : p.sp - args.length + (p.codes[ci]!).numLocals ≤ (stackSize : Int))
+    (hnl : (p.codes[ci]!).numParams ≤ (p.codes[ci]!).numLocals)
+    (c0 p0 c1 : State)
+    (hc0 : exec (prologue s.globals args) (acquireFrom { root with modules := s.modules } s (zeroVM s) fa) = (.ok (), c0))
+    (hp0 : exec (callCompiled fa args.length 0) p = (.ok (.ok ()), p0))
+    (hloop : exec (loopF F fuel) c0 = (.ok (some ()), c1))
+    (hok : OkRun F fuel c0 p0)
+    (hpar : ∀ j, j ≤ fuel → runSteps F j p0 ≠ none)
+    (hrete : c1.err = some (.rt e))
+    (hnh : ∀ j, j < p.frameIndex.toNat → hasHandler (p0.frames[j]!) = false) :
+    ∃ w' s' sIn,
+      iterInvoke (runAt F cfg root (dpt + 1)) cfg root fa args fuel false 1 w s none [] = (.error (.rt e), w', s') ∧
+      inScriptCall F fuel s fa args = (.error (.rt e), sIn) ∧
+      s'.heap = sIn.heap ∧ s'.globals = sIn.globals ∧ s'.modules = sIn.modules := by
+  have hso := pushArgs_frame fa args s p hpush
+  unfold StackOnly at hso
+  have hph : p.heap = s.heap := by rw [hso]
+  have hpc : p.codes = s.codes := by rw [hso]
+  have hpk : p.consts = s.consts := by rw [hso]
+  have hpm : p.modules = s.modules := by rw [hso]
+  have hpn : p.numModules = s.numModules := by rw [hso]
+  have hpg : p.globals = s.globals := by rw [hso]
+  have hpf : p.frameIndex = s.frameIndex := by rw [hso]
+  obtain ⟨c0', p0', h1, h2, hsh, _⟩ := prologue_eq_callbind
+    (acquireFrom { root with modules := s.modules } s (zeroVM s) fa) p fa ci free args hfn
+    (by rw [hph]; rfl) (by rw [hpc]; rfl) (by rw [hpk]; exact hrc) (by rw [hpm]; rfl) (by rw [hpn]; exact hrn) rfl
+    (by rw [hpn, hpm]; exact hshared) hg herr ⟨(zeroVM_shape s).stack, (zeroVM_shape s).frames⟩ hshp hargs hacc hself
+    ⟨by omega, hfi.2⟩ (by omega) hsp hroom hnl
+  rw [hpg, hc0] at h1
+  rw [hp0] at h2
+  simp only [Prod.mk.injEq, Except.ok.injEq] at h1 h2
+  obtain ⟨_, rfl⟩ := h1
+  obtain ⟨_, rfl⟩ := h2
+  obtain ⟨m, cm, hm, hcm, hlast, hparent⟩ := UgoVerif.Proofs.Shift.invoke_loop_partial F (by omega) (by omega) fuel c0 p0 ⟨0, hsh⟩ hok c1 hloop
+    (by rw [hrete]; simp)
+  rcases hpm' : runSteps F m p0 with _ | ⟨r0, pm⟩
+  · exact absurd hpm' (hpar m (by omega))
+  obtain ⟨hr0, hfin⟩ := hparent r0 pm hpm'
+  subst hr0
+  have hsn := runSteps_snoc F m p0 pm hpm'
+  rcases e1 : exec (step F) pm with ⟨r1, p'⟩
+  rw [e1] at hsn
+  cases r1 with
+  | error x => exact absurd hsn (hpar (m + 1) (by omega))
+  | ok r' =>
+    have hend := hfin r' p' e1
+    rcases hend with hq | ⟨e', he, n, u, hu1, hu2, hu3, hu4, hu5, hu6, hu7⟩ | ⟨_, ⟨msg, he, _⟩, _⟩
+    · obtain ⟨_, _, _, _, _, hce, _⟩ := hq
+      rw [hrete] at hce; cases hce
+    rotate_left
+    · rw [hrete] at he; cases he
+    rw [hrete] at he
+    simp only [Option.some.injEq, VmErr.rt.injEq] at he
+    subst he
+    -- the parent: no handler below frame k
+    have hkf : p.frameIndex.toNat ≤ frameSize := by have := hfi.2; simp only [frameSize] at this ⊢; omega
+    obtain ⟨u', hs1, hs2, hs3, hs4, hs5⟩ := searchFrames_none p.frameIndex.toNat u hkf
+      (fun i hi => by rw [hu5 i hi]; exact hnh i hi)
+    have hesc : exec (escBelow n p.frameIndex.toNat e) u = (.ok .ret, { u' with err := some (.rt e) }) := by
+      unfold escBelow
+      rw [exec_bind, exec_throwBelow, hs1]
+      simp only [exec_bind, exec_modS, exec_pure]
+    rw [hesc] at hu7
+    simp only [Prod.mk.injEq, Except.ok.injEq] at hu7
+    obtain ⟨hr', hp'⟩ := hu7
+    subst hr'
+    subst hp'
+    -- the Invoker side
+    obtain ⟨w1, hacq⟩ := poolAcquire_fresh w { root with modules := s.modules } s fa cfg.pooled hw
+    have hfv := finish_error_state c1 (.rt e) hrete
+    have hrun : runAt F cfg root (dpt + 1) fuel w1 s.globals args (acquireFrom { root with modules := s.modules } s (zeroVM s) fa) =
+        (.error (.rt e), w1, (exec clearCurrentFrame c1).2) := by
+      show runWithW F cfg root (runAt F cfg root dpt) fuel w1 s.globals args _ = _
+      rw [runWithW_of_loop F cfg root _ fuel w1 s.globals args _ c0 c1 hc0 hloop, hfv]
+    have hshr : (if s.modules.size ≥ s.numModules then s.modules else #[]) = s.modules := by
+      rw [if_pos hshared]
+    obtain ⟨w', hit⟩ := iterInvoke_one (runAt F cfg root (dpt + 1)) cfg root s fa args fuel w w1 w1 _ _ _
+      (by rw [hshr]; exact hacq) rfl hrun
+    refine ⟨w', _, { u' with err := some (.rt e) }, hit, ?_, ?_, ?_, ?_⟩
+    · rw [inScriptCall_eq F fuel s fa args p p0 hpush hp0]
+      have ef : fuel = m + ((fuel - m - 1) + 1) := by omega
+      rw [ef, go_of_steps F s.frameIndex m _ p0 pm hpm' ?_]
+      · rw [inScriptCall.go]
+        have e1' : StateT.run (ExceptT.run (step F)) pm = (.ok .ret, { u' with err := some (.rt e) }) := e1
+        simp only [e1']
+      · intro j tj hj1 hj2 hr
+        obtain ⟨cj, hcj⟩ := runSteps_prefix F m c0 cm hcm j hj2
+        have ej : fuel = j + (fuel - j) := by omega
+        rw [ej] at hok
+        obtain ⟨_, ⟨d, H, N, a, hd, _, _⟩, _⟩ := UgoVerif.Proofs.Shift.steps_shift F (by omega) (by omega) j (fuel - j) c0 p0 ⟨0, hsh⟩ hok cj hcj .next tj hr
+        have := hd.fiT
+        rw [← hpf]
+        omega
+    · show c1.heap = u'.heap
+      rw [hs2, hu1]
+    · show s.globals = u'.globals
+      rw [hs3, hu2]
+      have hsn' := runSteps_snoc F m c0 cm hcm
+      rw [hlast] at hsn'
+      have g1 := runSteps_globals F (m + 1) c0 .ret c1 hsn'
+      have g2 := (gkeeps_callCompiled (G := p.globals) fa args.length 0).elim p rfl
+      rw [hp0] at g2
+      obtain ⟨H, N, a, hsh', _, _⟩ := hsh
+      rw [g1, hsh'.globals, g2, hpg]
+    · show (if s.modules.size ≥ s.numModules then c1.modules else s.modules) = u'.modules
+      rw [if_pos hshared, hs4, hu3]
 
 end UgoVerif.Props.C14
